@@ -486,6 +486,40 @@ def gen_linearity(tier):
         "errors": st.lists(st.tuples(st.integers(0, 70), st.integers(1, 31)), min_size=1, max_size=6)})
 
 
+FUZZ_CHARS = CS + "1bioBC" + "QPZRY9X8" + " ~\u212a"
+FUZZ_HRPS = ["bc", "tb", "bcrt", "1", "a1"]
+
+
+def check_fuzz(case, ctx):
+    """Byte-level oracle: structured single-rule rejection, or a raw string built from the bytes."""
+    B, H = _impl()
+    d = case["data"]
+    if len(d) >= 7 and d[0] & 1:
+        check_reject({"kind": KINDS[d[1] % len(KINDS)], "hrp": FUZZ_HRPS[d[2] % 3], "ver": d[3] % 17,
+                      "n": 2 + d[4] % 39, "a": d[5], "b": d[6]}, ctx)
+        return
+    hrp = FUZZ_HRPS[(d[0] >> 1) % len(FUZZ_HRPS)] if d else "bc"
+    body = "".join(FUZZ_CHARS[b % len(FUZZ_CHARS)] for b in d[1:])
+    if len(d) >= 2 and d[1] & 0x80:
+        # make the checksum valid for one of the constants so that the rule checks are reached
+        syms = [b % 32 for b in d[2:]]
+        const = [1, M, 0, M ^ 1][d[1] % 4]
+        s = R.encode_raw(hrp, syms, const)
+        if d[1] & 0x40:
+            s = s.upper()
+    else:
+        s = hrp + "1" + body if (d and d[0] & 2) else body
+    want = R.segwit_decode(hrp, s)
+    st_, got = call(B.decode, hrp, s)
+    norm = None if (st_ == "exc" or got is None or got[0] is None) else (got[0], bytes(got[1]))
+    if norm != want:
+        raise Violation("C11/fuzz/differs-from-reference", "decode(%r, %r) = %r, BIP173/350 say %r" % (hrp, s, norm, want))
+
+
+FUZZ_CORPUS = [b"\x00bc1qw508d6qejxtdg4y5r3zarvary0c5xw7kv8f3t4", bytes([2, 0x80]) + bytes([0] + [5] * 32),
+               bytes([2, 0x81]) + bytes([1] + [7] * 52), bytes([1, 3, 0, 0, 18, 1, 2]), bytes([1, 6, 1, 1, 30, 9, 9])]
+
+
 def clauses():
     return [
         Clause("encode-decode", check_pair,
@@ -526,4 +560,13 @@ def clauses():
                "and random error vectors; polymod equals the GF(32) model; non-trivial = >= 2 error symbols",
                gen=gen_linearity, nontrivial=lambda c: len(c["errors"]) >= 2,
                n={"quick": 3000, "thorough": 200000}),
+        Clause("fuzz-decode", check_fuzz,
+               "raw bytes decoded into a single-rule rejection case, a string with a valid checksum for a chosen "
+               "constant, or an arbitrary string over charset + separator + foreign characters; differential against "
+               "the GF(32) reference decoder; hypothesis st.binary and atheris/libFuzzer campaigns",
+               gen=lambda tier: st.fixed_dictionaries({"data": st.binary(max_size=100)}),
+               nontrivial=lambda c: len(c["data"]) >= 8,
+               n={"quick": 3000, "thorough": 100000}, shards={"quick": 2, "thorough": 8},
+               fuzz={"runs": {"quick": 20000, "thorough": 800000}, "campaigns": {"quick": 2, "thorough": 8},
+                     "max_len": 120, "corpus": FUZZ_CORPUS}),
     ]
